@@ -1,6 +1,6 @@
 /-
   C09 kernel check, one point per reduced argument `w` (|w| ≤ phi/2): the model's polynomial
-  `sinPoly w` is within (11/5) ulp + ((|w|-4)/65536)^9/9! of sin(w/65536).
+  `sinPoly w` is within (11/5) ulp + ((|w|-12)/65536)^9/9! of sin(w/65536).
   The remaining 4 - 11/5 ulp of the property's budget is consumed analytically by the range
   reduction (Proofs/SinReduce.lean, Spec/C09.lean).
 -/
@@ -10,13 +10,13 @@ import FixedMath.Check.Taylor
 namespace FixedMath.Chk
 open FixedMath
 
-/-- `|p/65536 - sin(n/65536)| ≤ (11/5)/65536 + ((n-4)/65536)^9/9!` decided through the degree-15 Taylor
+/-- `|p/65536 - sin(n/65536)| ≤ (11/5)/65536 + ((n-12)/65536)^9/9!` decided through the degree-15 Taylor
     enclosure (remainder ≤ 2^-35 for n ≤ 102944); `p = ± pmag` -/
 def accSinW (n : Nat) (pneg : Bool) (pmag : Nat) : Bool :=
   let sc := sinScale 16
   let u := sc / 65536
   let slack := sc / 34359738368
-  let m := n - 4
+  let m := n - 12
   let tol := 11 * u + 5 * (m ^ 9 * 285506606436402966952094979430809600)   -- 3603600 * 2^96
   Nat.ble n 102944 &&
   (if pneg then
